@@ -75,8 +75,9 @@ def run(chk):
     tr = [t for t in p.traits.values() if t["path"].endswith("::U2fApi")]
     if not chk.require("R1 registration signature base", "R1|U2fApi", len(tr) == 1, "passkey_authenticator", "trait U2fApi not found"):
         return
-    ur = p.async_body(p.method(AUTH, "register", trait=tr[0]["path"]))
-    ua = p.async_body(p.method(AUTH, "authenticate", trait=tr[0]["path"]))
+    from .common import u2f_body
+    ur = u2f_body(p, "register")
+    ua = u2f_body(p, "authenticate")
     if not chk.require("R1 registration signature base", "R1|bodies", ur is not None and ua is not None, AUTH, "U2F register/authenticate bodies not found"):
         return
     chk.touched(ur)
